@@ -14,6 +14,7 @@ Not(a) == [t |-> "not", a |-> a]
 
 \* the public context (the harness builds the same Go values)
 Ctx == [l0 |-> L(<<>>), l1 |-> L(<<I(7)>>), l3 |-> L(<<I(3), I(1), I(2)>>), ls |-> L(<<S(<<"b">>), S(<<"a">>), S(<<"b">>)>>),
+        le |-> L(<<S(<<"a">>), S(<<>>), S(<<"a">>), S(<<"b">>), S(<<"b">>), S(<<>>), S(<<>>), S(<<"b">>)>>),   \* repeats, also across empty items
         s0 |-> S(<<>>), s2 |-> S(<<"b", "a">>), su |-> S(<<"CJK", "EACUTE", "z">>),
         m2 |-> M(<<P(S(<<"a">>), I(1)), P(S(<<"b">>), I(2))>>), m0 |-> M(<<>>),
         z0 |-> S(<<"0">>), n0 |-> I(0), n1 |-> I(1), n2 |-> I(2), bt |-> B(TRUE), bf |-> B(FALSE)]
@@ -26,7 +27,7 @@ Conds == {CondSeq[i] : i \in DOMAIN CondSeq}
 IterSeq == << [e |-> Var(<<"l0">>), kv |-> FALSE], [e |-> Var(<<"l1">>), kv |-> FALSE], [e |-> Var(<<"l3">>), kv |-> FALSE],
            [e |-> Var(<<"ls">>), kv |-> FALSE], [e |-> Var(<<"s2">>), kv |-> FALSE], [e |-> Var(<<"s0">>), kv |-> FALSE], [e |-> Var(<<"su">>), kv |-> FALSE],
            [e |-> Var(<<"n1">>), kv |-> FALSE], [e |-> Var(<<"nope">>), kv |-> FALSE],
-           [e |-> Var(<<"m2">>), kv |-> TRUE], [e |-> Var(<<"m0">>), kv |-> TRUE] >>
+           [e |-> Var(<<"m2">>), kv |-> TRUE], [e |-> Var(<<"m0">>), kv |-> TRUE], [e |-> Var(<<"le">>), kv |-> FALSE] >>
 Iters == {IterSeq[i] : i \in DOMAIN IterSeq}
 
 LeafSeq == << T(<<"t">>), Out(Var(<<"x">>)), Out(Var(<<"forloop", "Counter">>)), Out(Var(<<"forloop", "Counter0">>)),
@@ -36,6 +37,8 @@ LeafSeq == << T(<<"t">>), Out(Var(<<"x">>)), Out(Var(<<"forloop", "Counter">>)),
             [t |-> "cycle", args |-> <<Lit(S(<<"a">>)), Lit(S(<<"b">>)), Lit(S(<<"c">>))>>, as |-> "", silent |-> FALSE],
             [t |-> "ifchanged", args |-> <<Var(<<"x">>)>>, body |-> <<T(<<"C">>)>>, els |-> <<T(<<"s">>)>>],
             [t |-> "ifchanged", args |-> <<>>, body |-> <<Out(Var(<<"x">>))>>, els |-> <<>>],
+            [t |-> "ifchanged", args |-> <<>>, body |-> <<[t |-> "if", conds |-> <<Bin("==", Var(<<"x">>), Lit(S(<<"a">>)))>>, bodies |-> << <<T(<<"A">>)>> >>]>>, els |-> <<>>],
+            [t |-> "ifchanged", args |-> <<Var(<<"x">>), Var(<<"forloop", "First">>)>>, body |-> <<T(<<"C">>)>>, els |-> <<>>],
             [t |-> "firstof", args |-> <<Var(<<"s0">>), Var(<<"x">>), Lit(S(<<"z">>))>>],
             [t |-> "firstof", args |-> <<Var(<<"n0">>), Var(<<"z0">>), Lit(S(<<"y">>))>>],
             Out(Var(<<"forloop", "Parentloop", "Parentloop", "Counter">>)),
